@@ -90,7 +90,15 @@ def verifyAll (e : Env) (msg : String) : List (String × String × KT) → Excep
 def required (signers n : Nat) : Nat :=
   if signers ≤ 1 then 1 else if 0 < n ∧ n < signers then n else signers
 
-def isNumeric (s : String) : Bool := s.length > 0 && s.toList.all Char.isDigit && s.length ≤ 19
+/-- decimal digits to a number (structural, so that the kernel can evaluate it) -/
+def digitsVal : List Char → Nat → Nat
+  | [], acc => acc
+  | ch :: cs, acc => digitsVal cs (acc * 10 + (ch.toNat - 48))
+
+/-- `strconv.ParseUint(s, 10, 64)` succeeds: decimal digits only, at least one, value below 2^64
+    (leading zeros are allowed, so the length is not bounded) -/
+def isNumeric (s : String) : Bool :=
+  s.length > 0 && s.toList.all Char.isDigit && decide (digitsVal s.toList 0 < 2^64)
 
 /-- `validateAndExtractInvocationContext`: sender address, method arguments, nonce -/
 def authorize (e : Env) (fn : String) (argc : Nat) (args : List String) (acl : AclReply) :
